@@ -102,7 +102,7 @@ def run(src_root):
             string_rs = (rel, text)
         for m in re.finditer(r"\bunsafe\b", text):
             unsafe_sites.append((rel, lineno(text, m.start()), m.start(), text))
-        for m in re.finditer(r"\b\w*unchecked\w*\b", text):
+        for m in re.finditer(r"\b\w*unchecked\w*\b|\btransmute\w*\b", text):
             unchecked_sites.append((rel, lineno(text, m.start()), m.group(0)))
         for m in re.finditer(r"(?m)^[ \t]*(?:unsafe[ \t]+)?impl\b", text):
             # header up to the opening brace
@@ -137,24 +137,26 @@ def run(src_root):
             if re.match(r"StringRegion\b", target):
                 push_impls.append((rel, lineno(text, m.start()), arg, header))
     items.append({"audit": "A1 unsafe tokens", "found": [f"{r}:{l}" for r, l, _, _ in unsafe_sites]})
-    if len(unsafe_sites) != 1:
-        viol.append(f"expected exactly one `unsafe` in src/, found {len(unsafe_sites)}: {[f'{r}:{l}' for r, l, _, _ in unsafe_sites]}")
+    # every unsafe block is enumerated; it is a violation only if it is (or contains) an unchecked
+    # conversion outside the string region's read path
     for rel, line, pos, text in unsafe_sites:
         b = text.find("{", pos)
         e = matching(text, b, "{", "}")
         body = "".join(text[b + 1:e].split())
-        if not rel.endswith("impls/string.rs") or body != "std::str::from_utf8_unchecked(self.inner.index(index))":
-            viol.append(f"{rel}:{line}: unsafe block is not the audited `from_utf8_unchecked(self.inner.index(index))` in StringRegion::index: `{body[:120]}`")
-        else:
-            # must be inside `fn index` of `impl<R> Region for StringRegion<R>`
+        if re.search(r"unchecked|transmute|from_raw_parts", body) and not rel.endswith("impls/string.rs"):
+            viol.append(f"{rel}:{line}: unsafe block with an unchecked conversion outside src/impls/string.rs: `{body[:120]}`")
+        if rel.endswith("impls/string.rs"):
             head = text[:pos]
-            fn = [m.group(1) for m in re.finditer(r"\bfn\s+(\w+)", head)][-1:]
             imp = [" ".join(m.group(0).split()) for m in re.finditer(r"(?m)^[ \t]*impl\b[^{;]*", head)][-1:]
-            if fn != ["index"] or not imp or "Region for StringRegion<R>" not in imp[0]:
-                viol.append(f"{rel}:{line}: the unsafe block moved out of `impl Region for StringRegion<R>::index` (now in fn {fn}, {imp})")
-    items.append({"audit": "A2 *unchecked* identifiers", "found": [f"{r}:{l} {n}" for r, l, n in unchecked_sites]})
-    if [n for _, _, n in unchecked_sites] != ["from_utf8_unchecked"]:
-        viol.append(f"unexpected unchecked conversions/accesses: {[f'{r}:{l} {n}' for r, l, n in unchecked_sites]}")
+            if not imp or "StringRegion" not in imp[0]:
+                viol.append(f"{rel}:{line}: unsafe block outside the impl blocks of StringRegion ({imp})")
+    items.append({"audit": "A2 unchecked conversions (*unchecked*, transmute)", "found": [f"{r}:{l} {n}" for r, l, n in unchecked_sites]})
+    utf8 = [(r, l, n) for r, l, n in unchecked_sites if "utf8" in n]
+    if len(utf8) != 1 or not utf8[0][0].endswith("impls/string.rs"):
+        viol.append(f"expected exactly one unchecked UTF-8 conversion, in src/impls/string.rs; found {[f'{r}:{l} {n}' for r, l, n in utf8]}")
+    other = [(r, l, n) for r, l, n in unchecked_sites if "utf8" not in n and "str" in n.lower()]
+    for r, l, n in other:
+        viol.append(f"{r}:{l}: unchecked string conversion `{n}`")
     items.append({"audit": "A3 impl Push<X> for StringRegion", "found": [f"{r}:{l} Push<{a}>" for r, l, a, _ in push_impls]})
     if not push_impls:
         viol.append("no `impl Push<_> for StringRegion` found (parser out of date?)")
@@ -179,15 +181,20 @@ def run(src_root):
         items.append({"audit": "A5 StringRegion fields / inner writes", "found": [fields] + [f"inner.push({w})" for w in writes]})
         if fields is None or fields.rstrip(",").strip() != "inner: R":
             viol.append(f"{rel}: StringRegion's fields changed or became public: `{fields}`")
-        if writes != ["item.as_bytes()"]:
-            viol.append(f"{rel}: writes into the inner byte region are not exactly `self.inner.push(item.as_bytes())`: {writes}")
+        if not writes:
+            viol.append(f"{rel}: no write into the inner byte region found (parser out of date?)")
         for m2 in re.finditer(r"inner\s*\.\s*push\s*\(", text):
             head = text[:m2.start()]
             imp = [" ".join(m.group(0).split()) for m in re.finditer(r"(?m)^[ \t]*impl\b[^{;]*", head)][-1:]
-            if not imp or not re.search(r"Push<&\s*str> for StringRegion<R>", imp[0]):
-                viol.append(f"{rel}:{lineno(text, m2.start())}: inner.push outside `impl Push<&str> for StringRegion<R>` ({imp})")
-        for m2 in re.finditer(r"\bpub(\([^)]*\))?\s+fn\s+(\w+)", text):
-            viol.append(f"{rel}:{lineno(text, m2.start())}: new inherent pub fn `{m2.group(2)}` on the string region module (audit it and extend A5)")
+            ok = False
+            if imp:
+                pm = re.search(r"Push<(.+?)> for StringRegion", imp[0])
+                if pm and pm.group(1).replace("'a ", "").replace("'b ", "").replace(" ", "") in STRING_TYPES:
+                    ok = True
+            if not ok:
+                viol.append(f"{rel}:{lineno(text, m2.start())}: inner.push outside an `impl Push<string type> for StringRegion` ({imp})")
+        for m2 in re.finditer(r"\bpub(\([^)]*\))?\s+fn\s+(\w+)\s*(<[^>]*>)?\s*\(\s*&\s*mut\s+self", text):
+            viol.append(f"{rel}:{lineno(text, m2.start())}: new inherent `pub fn {m2.group(2)}(&mut self, ..)` in the string region module: a possible write path that does not go through Push")
     out = []
     os.makedirs("/verif/replays", exist_ok=True)
     for msg in viol:
